@@ -37,6 +37,9 @@ var codecPairs = []codecPair{
 
 func c03() []*Ob {
 	return []*Ob{
+		{Prop: "C03", ID: "C03.10", Engine: "PROV(no-truncation)+ALIAS", Floor: 3,
+			Desc:  "the token table that is read back from the index file selects the same dictionary blocks as the one built at sealing: the block bounds written by TableEntry.Pack and restored by the table loader are the whole first/last tokens, copied (shared rule with C13.9) — a bound cut to a default token size on the way to disk makes the reloaded (restarted, or evicted and re-read) form of a fraction miss tokens that the active and the freshly sealed form find",
+			Check: func(c *Ctx) { tableBoundsWhole(c) }},
 		{Prop: "C03", ID: "C03.1", Engine: "CODEC", Floor: 5,
 			Desc: "writer and reader of every on-disk table agree: equal wire signatures (widths, order, loop nesting, field identity where both sides name the field) for the frozen encoder/decoder pairs of the sealed index",
 			Check: func(c *Ctx) {
